@@ -81,9 +81,16 @@ def decode(buf):
     nn = int(lines[13 + n + ns])
     normal = lines[14 + n + ns: 14 + n + ns + nn]
     actual = 14 + n + ns + nn
-    if actual != nl:
+    outside = False
+    if actual + 1 == nl:
+        # convention of the library writer: the column-header line is counted
+        # in NLHEAD but not in the normal-comment count
+        outside = True
+        cols = [s.strip() for s in lines[nl - 1].split(',')]
+    elif actual != nl:
         raise ValueError('declared %d header lines, structure has %d' % (nl, actual))
-    cols = [s.strip() for s in normal[-1].split(',')] if normal else []
+    else:
+        cols = [s.strip() for s in normal[-1].split(',')] if normal else []
     rows = []
     for ln in lines[nl:]:
         if not ln.strip():
@@ -95,6 +102,7 @@ def decode(buf):
     return {'nlhead': nl, 'ivar': ivar, 'n': n, 'scales': scales,
             'missing': missing, 'vars': vars_, 'special': special,
             'normal': normal, 'columns': cols, 'rows': rows,
+            'column_header_outside_normal_comments': outside,
             'date_line': lines[6]}
 
 
